@@ -150,6 +150,7 @@ def make_machine(extra):
 
 
 def replay(body) -> int:
+    common.REC.known.clear()
     ex = Exec()
     try:
         for op in body["ops"]:
@@ -157,6 +158,10 @@ def replay(body) -> int:
     except Violation as v:
         print("REPLAY: reproduced", v.signature, core.to_jsonable(v.detail))
         return 1 if v.signature == body["signature"] else 1
+    if common.REC.known:
+        for sig, k in common.REC.known.items():
+            print("REPLAY: reproduced (listed as an open known finding)", sig, str(k["detail"])[:400])
+        return 1
     print("REPLAY: operation list ran clean on this tree")
     return 0
 
